@@ -115,7 +115,7 @@ Lemma ops_total_refuted_witnesses :
   (file_class nil_iat_control_file = ShNilIATControl /\ run_op OCreate nil_iat_control_file [] = PANIC) /\
   (file_class nil_iat_entry_file = ShNilIATEntry /\ run_op OWriteBypass nil_iat_entry_file [] = PANIC) /\
   (file_class nil_iat_addenda_file = ShNilIATAddenda /\ run_op OBatchCreate nil_iat_addenda_file [] = PANIC) /\
-  (wf_file unknown_sec_file = true /\ wf_file_strict unknown_sec_file = false /\ run_op OFlatten unknown_sec_file [] = PANIC).
+  (wf_file unknown_sec_file = true /\ wf_file_strict unknown_sec_file = false /\ panics (run_op OFlatten unknown_sec_file []) = false).
 Proof. vm_compute. repeat split. Qed.
 
 (* File.IsADV installs missing headers and controls: a file-level operation does not panic on a missing
